@@ -222,7 +222,7 @@ def gene_exons(ref, t):
     return out
 
 
-def as_records(r, ref, t, n=1, min_tx_pos=3, nested_p=0.0):
+def as_records(r, ref, t, n=1, min_tx_pos=3, nested_p=0.0, kinds=None, nested_fs=False):
     """Random alternative-splicing records on transcript t.  Each item: dict(line=GVF line, var=the record as the
     replace-[start,end)-by-alt variant the oracle uses (transcript coordinates, callVariant's internal anchoring),
     meta=the record in gene coordinates for the spec's Denote)."""
@@ -245,7 +245,7 @@ def as_records(r, ref, t, n=1, min_tx_pos=3, nested_p=0.0):
     tries = 0
     while len(out) < n and tries < 40:
         tries += 1
-        kind = r.choice(['del_exon', 'del_end', 'del_start', 'ins_full', 'ins_part', 'ins_part', 'sub_exon'])
+        kind = r.choice(kinds or ['del_exon', 'del_end', 'del_start', 'ins_full', 'ins_part', 'ins_part', 'sub_exon'])
         rec = None
         if kind == 'del_exon' and nx >= 3:
             k = r.randrange(1, nx - 1)
@@ -309,16 +309,21 @@ def as_records(r, ref, t, n=1, min_tx_pos=3, nested_p=0.0):
         # transcript at intronic gene positions; the oracle gets them in donor coordinates
         nested, nested_gvf = [], []
         if rec['kind'] != 'Deletion' and nested_p and r.random() < nested_p and rec['dend'] - rec['dstart'] >= 4:
-            for _ in range(r.randrange(1, 3)):
-                kind = r.choice(['SNV', 'SNV', 'INS', 'DEL'])
+            for _ in range(1 if nested_fs else r.randrange(1, 3)):
+                kind = r.choice(['INS', 'DEL'] if nested_fs else ['SNV', 'SNV', 'INS', 'DEL'])
                 gp = r.randrange(rec['dstart'], rec['dend'])       # sometimes on the first / last donor base
+                if nested_fs:
+                    # a frameshifting indel strictly inside the donor segment
+                    if rec['dend'] - rec['dstart'] < 6:
+                        continue
+                    gp = r.randrange(rec['dstart'] + 1, rec['dend'] - 3)
                 if kind == 'SNV':
                     rf = gseq[gp]; alt = r.choice([b for b in 'ACGT' if b != rf])
                 elif kind == 'INS':
-                    rf = gseq[gp]; alt = rf + ''.join(r.choice('ACGT') for _ in range(r.randrange(1, 4)))
+                    rf = gseq[gp]; alt = rf + ''.join(r.choice('ACGT') for _ in range(r.randrange(1, 3 if nested_fs else 4)))
                 else:
-                    n_ = r.randrange(1, 4)
-                    if gp + 1 + n_ > rec['dend']:
+                    n_ = r.randrange(1, 3 if nested_fs else 4)
+                    if gp + 1 + n_ > rec['dend'] - (1 if nested_fs else 0):
                         continue
                     rf = gseq[gp:gp + 1 + n_]; alt = rf[0]
                 if any(gp <= x['gstart'] + len(x['ref']) and x['gstart'] <= gp + len(rf) for x in nested_gvf):
